@@ -62,6 +62,9 @@ RULE = ("histories of ask / tell (plus about 10 % out-of-order and ask_dqd / tel
         "per distinct op list")
 PARTIAL = []
 ASSUMPTIONS = [
+    "constructor options whose value equals the documented default (reselect='terminated', zeta=0.05, "
+    "result_archive=None, add_mode='batch'; archive extra_fields None) are omitted from the call; model and oracle use "
+    "the documented value",
     "`_selection` and `_success` are read by attribute access (BanditScheduler has no public accessor for its counts)",
     "'solutions inserted' is read as: rows whose add-feedback status returned by the archive is non-zero. "
     "Documented reading, not a violation: in batch mode several rows of one batch aimed at the same empty cell all "
@@ -181,8 +184,9 @@ def build(case):
     if case["archive"] in ("nothing", "nothing-then-some"):
         kw = {"learning_rate": 0.5, "threshold_min": 100.0}
     extra = {"tag": ((), np.int64), "vec": ((2,), np.float64)} if case.get("extra") else None
+    xk = {} if extra is None else {"extra_fields": extra}
     mk = lambda r, **k: recording(GridArchive, log, r)(solution_dim=SOLDIM, dims=[4, 4], ranges=[(0, 4), (0, 4)],
-                                                       extra_fields=extra, **k)
+                                                       **xk, **k)
     if case.get("dtype") == "f32":
         kw["dtype"] = np.float32  # main archive only: the result archive stays float64
     archive = mk(False, **kw)
@@ -225,8 +229,18 @@ def build(case):
             self.restarts = start
 
     spies = [CounterSpy(i, c["start"]) if c["counter"] else Spy(i) for i, c in enumerate(case["emitters"])]
-    sched = BanditScheduler(archive, spies, case["num_active"], reselect=case["reselect"], zeta=case["zeta"],
-                            result_archive=result, add_mode=case["mode"])
+    # options whose value is the documented default (reselect="terminated", zeta=0.05, result_archive=None,
+    # add_mode="batch") are left to the constructor; the model and the oracle use the documented value
+    opts = {}
+    if case["reselect"] != "terminated":
+        opts["reselect"] = case["reselect"]
+    if not (isinstance(case["zeta"], float) and case["zeta"] == 0.05):
+        opts["zeta"] = case["zeta"]
+    if result is not None:
+        opts["result_archive"] = result
+    if case["mode"] != "batch":
+        opts["add_mode"] = case["mode"]
+    sched = BanditScheduler(archive, spies, case["num_active"], **opts)
     return sched, archive, result, spies, log, ctl
 
 
